@@ -44,7 +44,15 @@ from . import c15_scml          # noqa
 from . import c13_sdml          # noqa
 from . import c14_mmc           # noqa
 from . import c10_gradient      # noqa
+from . import c09_formulas      # noqa
+from . import c12_lsml          # noqa
 
+
+# C18 "the value passed is stored untouched ... also via set_params": the functions that could write into a hyper-parameter array or keep
+# using a value replaced by set_params are part of the C18 check (ownership / freshness / built-from-the-current-parameter clauses)
+for _t in ('base_metric:BaseMetricLearner._check_preprocessor', 'lsml:_BaseLSML._fit', '_util:_initialize_metric_mahalanobis',
+           '_util:_initialize_components'):
+  unit('C18', _t)
 
 # every contract contributes a unit to each property it is tagged with (prop=[...])
 from npvc.contracts import REGISTRY as _REG
